@@ -18,7 +18,7 @@ MUTANTS = [
     ("final_node_offset_control_U0", SM, "u = self.U[-1] if k==len(self.U) else self.U[k]", "u = self.U[0] if k==len(self.U) else self.U[k]", ["C04"]),
     ("dc_integrator_include_first_whole_interval", DC, "                    if k==0 and i==0 and not args[\"include_first\"]: continue", "                    if k==0 and not args[\"include_first\"]: continue", ["C04"]),
     ("integrator_time_of_first_step", SM, "                                                               t=self.integrator_grid[k][i],", "                                                               t=self.integrator_grid[k][0],", ["C04"]),
-    ("root_state_first_column", SM, "                                                               x=self.xr[k][i][:,j],", "                                                               x=self.xr[k][i][:,0],", ["C04"]),
+    ("root_state_first_column", SM, "                                                               x=self.xr[k][i][:,j],", "                                                               x=self.xr[k][i][:,0],", ["C02"]),
     ("point_constraints_after_dropped", SM, "            if 'r_at_tf' in [a.name() for a in symvar(e)]:\n                opti.subject_to(e, args[\"scale\"], meta=meta)", "            if 'r_at_tf' in [a.name() for a in symvar(e)] and len(symvar(e))<3:\n                opti.subject_to(e, args[\"scale\"], meta=meta)", ["C04"]),
     ("p_control_plus_final_node_last_interval", SM, "    def get_p_control_plus_at(self, stage, k=-1):\n        return veccat(*[p[k] for p in self.P_control_plus])", "    def get_p_control_plus_at(self, stage, k=-1):\n        return veccat(*[p[k if k!=-1 else -2] for p in self.P_control_plus])", ["C04"]),
     ("ss_control_constraint_last_twice", SS, "                opti.subject_to(self.eval_at_control(stage, c, -1), scale=args[\"scale\"], meta=meta)", "                opti.subject_to(self.eval_at_control(stage, c, self.N-1), scale=args[\"scale\"], meta=meta)", ["C04"]),
@@ -37,4 +37,10 @@ MUTANTS = [
     ("grid_integrator_control_of_next", SM, "                                                               u=self.U[k], p_control=self.get_p_control_at(stage, k),", "                                                               u=self.U[min(k+1,self.N-1)], p_control=self.get_p_control_at(stage, k),", ["C07", "C04"]),
     ("root_param_interval", SM, "                                                               u=self.U[k],\n                                                               p_control=self.get_p_control_at(stage, k),", "                                                               u=self.U[k],\n                                                               p_control=self.get_p_control_at(stage, 0),", ["C07", "C04"]),
     ("solution_time_not_evaluated", "rockit/solution.py", "        return self.sol.value(time), DM2numpy(res, MX(expr).shape, time.numel())", "        return self.sol.value(time)+0*1e-3, DM2numpy(res.T if res.shape[0]==res.shape[1] and res.shape[0]>1 else res, MX(expr).shape, time.numel())", ["C07"]),
+    # --- C02
+    ("dc_C_prev_column", DC, "Pidot_j = mtimes(self.Xc[k][i],self.C[:,j])/ dt", "Pidot_j = mtimes(self.Xc[k][i],self.C[:,max(j-1,0)])/ dt", ["C02"]),
+    ("dc_root_time_no_tau", DC, "tr.append([self.integrator_grid[k][i]+dt*self.tau[j] for j in range(self.degree)])", "tr.append([self.integrator_grid[k][i]+dt*self.tau[-1]*(j+1)/self.degree for j in range(self.degree)])", ["C02"]),
+    ("dc_continuity_to_wrong_state", DC, "x_next = self.X[k + 1] if i==self.M-1 else self.Xc[k][i+1][:,0]", "x_next = self.X[k + 1] if i>=self.M-1 else self.Xc[k][i][:,0]", ["C02"]),
+    ("dc_alg_at_wrong_z", DC, "res = f(x=self.Xc[k][i][:, j+1], u=self.U[k], z=self.Zc[k][i][:,j], p=p_total, t=self.tr[k][i][j])", "res = f(x=self.Xc[k][i][:, j+1], u=self.U[k], z=self.Zc[k][i][:,0], p=p_total, t=self.tr[k][i][j])", ["C02"]),
+    ("dc_dt_of_first_interval", DC, "        for k in range(self.N):\n            dt = dts[k]", "        for k in range(self.N):\n            dt = dts[0]", ["C02"]),
 ]
